@@ -94,8 +94,12 @@ func (t *Tokenizer) TokenizeWithLimits(limits TokenizerLimits, input *ast.Input)
 			lastWasSpread = true
 		case keyword.IDENT:
 			key := identkeyword.KeywordFromLiteral(input.ByteSlice(next.Literal))
-			switch key {
-			case identkeyword.FRAGMENT, identkeyword.QUERY, identkeyword.MUTATION, identkeyword.SUBSCRIPTION:
+			// the definition keywords only start a new operation or fragment outside of a selection set,
+			// inside of one they are ordinary names (e.g. a field named "query") and must be counted
+			isDefinitionStart := localDepth <= 0 &&
+				(key == identkeyword.FRAGMENT || key == identkeyword.QUERY || key == identkeyword.MUTATION || key == identkeyword.SUBSCRIPTION)
+			switch {
+			case isDefinitionStart:
 				// When starting a new operation or fragment, add the local depth peak
 				// to global depth and reset local tracking
 				globalDepth += localDepthPeak
